@@ -184,5 +184,5 @@ def obligations(tier):
                 add("short/%s/all-eol/1cut" % nm, lines, "all", 1)
             add("short/%s/base+1/2cut" % nm, lines, "base1", 2)
         add("long/base+1/1cut", LONG, "base1", 1)
-        add("long/base+1/2cut", LONG[:7], "base1", 2)
+        add("long/base+1/2cut", LONG[2:7], "base1", 2)
     return out
